@@ -19,7 +19,7 @@ EXPLANATION = (
     "true exactly for loop bodies, false for function bodies and inherited everywhere else; break/continue test "
     "!ctx.inside_loop and return Err; (START) resolve() errors when the main module has no global `start`, solve() "
     "unifies it with fn -> void and has an error arm for a missing start."
-    " (START agreement) the resolver accepts only a variable defined in the main file as `start`, and the checker and the lowering look for exactly that variable; (BINDER-TYPED) `self` of a blob literal has the instance's type, so field accesses through it are checked."
+    " (START agreement) the resolver accepts only a variable defined in the main file as `start`, and the checker and the lowering look for exactly that variable; (BINDER-TYPED) `self` of a blob literal has the instance's type, so field accesses through it are checked; (COPY is-a-declaration) the name a variant or blob literal is built from is shown to be a declaration (not a parameter or local of that name whose unknown type defers the variant check for ever)."
 )
 UNDECIDED = "nothing about run-time shapes (that is C02); error wording."
 
@@ -42,6 +42,9 @@ def run(F, rep, tier):
     loop_flag(F, rep)
     start_rules(F, rep)
     c03.binder_typed(F, rep)
+    # a variant / blob can only be built from a declaration: a variable that merely has the name is no enum
+    import c02
+    c02.copy_discipline(F, rep, only_declaration=True)
     # shape checks on a value typed through an annotation need the named declaration to be known at that point
     c03.declared_types_known(F, rep)
 
@@ -235,9 +238,87 @@ def shape_handlers(F, rep):
                "the variant set of a total case is collected from every branch pattern", line_of(arm))
 
 
+IRM = "sylt_compiler::intermediate::"
+
+
+def loop_lowering_placement(F):
+    """Where the lowering puts each child of a `loop`: {child: (inside, label)} with inside = its code is written between
+    IR::Loop and the loop's closing IR::End (so a Lua `break` written there leaves *this* loop), label = 'new' when the
+    child is lowered under an IRContext whose closest_loop is the fresh label of this loop (so a `continue` there jumps to
+    this loop's label), 'inherit' when it gets the enclosing context unchanged."""
+    import irtpl
+    fst = F.fn(IRM + "IRCodeGen::statement")
+    arms = tc.arm_of(F, fst, S, "Loop")
+    if not arms:
+        return None
+    arm = arms[0][0]
+    ev, tpls = irtpl.arm_templates(F, "statement", S)
+    items = None
+    for a in tpls:
+        if a["label"] == "Loop" and a["items"] is not None:
+            items = a["items"]
+    if items is None:
+        return None
+    inside = {}
+    depth = 0
+    seen_loop = False
+
+    def children(it):
+        if it[0] == "code":
+            yield it[2].split("[")[0].split(".")[0]
+        elif it[0] == "rep":
+            for x in it[2]:
+                yield from children(x)
+        elif it[0] == "alt":
+            for alt in it[1]:
+                for x in alt:
+                    yield from children(x)
+    for it in items:
+        if it[0] == "op" and it[1] == "Loop":
+            seen_loop = True
+            depth = 1
+        elif it[0] == "op" and it[1] in ("If", "Function") and seen_loop:
+            depth += 1
+        elif it[0] == "op" and it[1] == "End" and seen_loop:
+            depth -= 1
+        for ch in children(it):
+            inside[ch] = seen_loop and depth > 0
+    fl = Flow(fst, fn_body(fst))
+    lits = [x for x in nodes(arm["body"], "Struct") if ty_is(x.get("ty", ""), IRM + "IRContext")]
+    label = {}
+    for c in nodes(arm["body"], "MethodCall"):
+        if callee(c) in (IRM + "IRCodeGen::statement", IRM + "IRCodeGen::expression", IRM + "IRCodeGen::expression_block"):
+            a = call_args(c)
+            ch = tc.root_field(fl, a[1]).split("[")[0].split(".")[0]
+            v = peel(a[2]) if len(a) > 2 else {}
+            if v.get("k") == "Path" and v.get("res") == "Local":
+                v = peel(fl.trace(v))
+            new = any(x is l for l in lits for x in nodes(v))
+            label[ch] = "new" if new else "inherit"
+    return {ch: (inside.get(ch), label.get(ch)) for ch in set(inside) | set(label)}
+
+
 def loop_flag(F, rep):
+    # what the checker must say about a child of `loop` follows from where the lowering puts it: inside the new Lua loop
+    # under the new label = part of this loop (true); before the loop under the enclosing context = inherit; any mixture
+    # (`break` would leave one loop, `continue` jump to the label of another) only if break/continue are rejected there
+    place = loop_lowering_placement(F) or {}
+    cond = place.get("condition")
+    if cond == (True, "new"):
+        cond_want = ({tc.T_, tc.F_}, "")
+    elif cond == (False, "inherit"):
+        cond_want = ({tc.I, tc.F_}, "")
+    else:
+        cond_want = ({tc.F_}, " - the lowering writes the condition %s and lowers it under %s label: a `break` there would "
+                     "leave one loop and a `continue` jump to the label of another, so neither may be accepted in a loop's "
+                     "condition" % ("inside the new Lua loop" if cond and cond[0] else "outside the new Lua loop" if cond else "?",
+                                    "the enclosing loop's" if cond and cond[1] == "inherit" else "the new loop's" if cond else "?"))
+    rep.ob("LOOP-LABEL", "IRCodeGen::statement|Loop|placement", place.get("body") == (True, "new") and cond is not None,
+           "the lowering writes a loop's body inside the Lua loop under the loop's own label; children and their (inside, label): %s"
+           % sorted(place.items()), None, sites=len(place))
     special = {
         ("statement", "Loop", "expression_block"): tc.T_,
+        ("statement", "Loop", "expression"): cond_want,
         ("expression", "Function", "expression_block"): tc.F_,
     }
     c04.ctx_propagation(F, rep, "inside_loop", special, rule="CTX", monotone=False)
